@@ -796,7 +796,7 @@ Proof.
     apply (single_sound [n0] n1 [n2] y); auto; try (cbn; rewrite ?Ea, ?Eb; reflexivity).
     intros _ _ Hch. cbn [not_single_char_anchored] in Hsingle. rewrite Ea, Eb in Hsingle. cbn [andb] in Hsingle.
     destruct n1; try discriminate; cbn [negb orb] in Hsingle;
-      (destruct mx as [[|q|q]|]; try discriminate; [right; reflexivity | destruct q; try discriminate; left; reflexivity]).
+      (destruct mx as [[|q|q]|]; try discriminate; try (right; reflexivity); destruct q; try discriminate; left; reflexivity).
   - cbn [not_max_zero_multi] in Hzero.
     cbn [handle_parsed] in H.
     destruct (split_last (n1 :: n2 :: n3 :: rest)) as [[mid b]|] eqn:Esl; [|discriminate].
@@ -812,3 +812,119 @@ Proof.
 Qed.
 
 End Sound2.
+
+(* ------------------------------------------------------------------------------------ *)
+(* 6. Schema level corollary, distribution facts, witnesses                               *)
+(* ------------------------------------------------------------------------------------ *)
+Lemma schema_sound catp p mn mx s p' mn' mx' :
+  update_pattern_in_schema p mn mx = Some (p', mn', mx') ->
+  wf_pattern p = true -> max_small mx = true ->
+  anchored_for_max p mx = true -> dollar_newline_ok p mx s = true ->
+  unit_bodies p = true -> not_max_zero_multi p mn mx = true -> not_single_char_anchored p mx = true ->
+  search catp p' s -> len_in mn' mx' s = true -> search catp p s /\ len_in mn mx s = true.
+Proof.
+  intros H Hwf Hsm Hanch Hdoll Hunit Hzero Hsingle Hs Hl. unfold update_pattern_in_schema in H.
+  destruct p as [|x p0]; [inversion H; subst; auto|].
+  destruct (py_truthy mn || py_truthy mx); [|inversion H; subst; auto].
+  destruct (update_quantifier (x :: p0) mn mx) as [|q|] eqn:E; [inversion H; subst; auto | | discriminate].
+  inversion H; subst. eapply rewrite_sound; eauto.
+Qed.
+
+Lemma distribute_sound bounds mn mx dist :
+  Forall wf_b bounds -> is_neg mn = false -> is_neg mx = false ->
+  distribute bounds mn mx = Some dist ->
+  Forall2 bound_rel bounds dist /\
+  (forall m, mn = Some m -> m <= sum_lo dist) /\
+  (forall m, mx = Some m -> m < MAXREPEAT -> (m <> 0 \/ opt_eqb mn mx = true) -> sum_hi dist <= m).
+Proof. apply distribute_spec. Qed.
+
+Lemma build_size_narrows lo hi mn mx l h : build_size lo hi mn mx = (l, h) ->
+  lo <= l /\ (h <= hi \/ hi = MAXREPEAT) /\ (forall m, mn = Some m -> m <= l) /\ (forall m, mx = Some m -> h <= m).
+Proof.
+  intros H. apply build_size_spec in H. destruct H as [-> ->].
+  destruct mn as [m1|], mx as [m2|]; destruct (hi =? MAXREPEAT) eqn:E; repeat split; try lia;
+    intros m Hm; inversion Hm; subst; lia.
+Qed.
+
+Definition s_a6 : str := [97; 97; 97; 97; 97; 97]%N.                  (* aaaaaa *)
+Definition s_abcde_nl : str := [97; 98; 99; 100; 101; 10]%N.          (* abcde + newline *)
+Definition s_ababab : str := [97; 98; 97; 98; 97; 98]%N.
+Definition s_abb : str := [97; 98; 98]%N.
+Definition s_abc : str := [97; 98; 99]%N.
+
+Definition other_regions (p : pattern) (mn mx : option Z) (s : str) : list bool :=
+  [wf_pattern p; max_small mx; anchored_for_max p mx; dollar_newline_ok p mx s; unit_bodies p;
+   not_max_zero_multi p mn mx; not_single_char_anchored p mx].
+
+Definition refutes catp (p : pattern) (mn mx : option Z) (s : str) (regions : list bool) : Prop :=
+  exists p', update_quantifier p mn mx = Rewritten p' /\ other_regions p mn mx s = regions /\
+             search catp p' s /\ ~ (search catp p s /\ len_in mn mx s = true).
+
+Ltac by_length := split; [apply search_b_sound; vm_compute; reflexivity | intros [_ H]; vm_compute in H; discriminate].
+
+Lemma refuted_unanchored catp :
+  refutes catp w_unanchored None (Some 5) s_a6 [true; true; false; true; true; true; true].
+Proof. eexists. split; [vm_compute; reflexivity|]. split; [vm_compute; reflexivity|]. by_length. Qed.
+
+Lemma refuted_dollar_newline catp :
+  refutes catp w_dollar None (Some 5) s_abcde_nl [true; true; true; false; true; true; true].
+Proof. eexists. split; [vm_compute; reflexivity|]. split; [vm_compute; reflexivity|]. by_length. Qed.
+
+Lemma refuted_multichar catp :
+  refutes catp w_multichar None (Some 5) s_ababab [true; true; true; true; false; true; true].
+Proof. eexists. split; [vm_compute; reflexivity|]. split; [vm_compute; reflexivity|]. by_length. Qed.
+
+Lemma refuted_max_zero catp :
+  refutes catp w_maxzero None (Some 1) s_abb [true; true; true; true; true; false; true].
+Proof. eexists. split; [vm_compute; reflexivity|]. split; [vm_compute; reflexivity|]. by_length. Qed.
+
+(* here the lengths are fine: the ORIGINAL pattern does not match the generated value *)
+Lemma refuted_single_char catp :
+  refutes catp w_single None (Some 5) s_abc [true; true; true; true; true; true; false].
+Proof.
+  eexists. split; [vm_compute; reflexivity|]. split; [vm_compute; reflexivity|].
+  split; [apply search_b_sound; vm_compute; reflexivity|].
+  intros [(pre & mid & post & Hs & HM) _]. unfold w_single in HM.
+  apply MSeq_cons_inv in HM. destruct HM as (s1 & s2 & -> & H1 & HM).
+  apply M_at_inv in H1. destruct H1 as [-> E1]. cbn [at_okb] in E1. destruct pre; [|discriminate].
+  apply MSeq_cons_inv in HM. destruct HM as (s3 & s4 & -> & H2 & HM).
+  apply MSeq_cons_inv in HM. destruct HM as (s5 & s6 & -> & H3 & HM).
+  apply M_at_inv in H3. destruct H3 as [-> E3]. apply MSeq_nil_inv in HM. subst s6.
+  assert (exists d, s3 = [d]) as [d ->] by (inversion H2; subst; eauto).
+  cbn [at_okb app] in E3. cbn [app] in Hs.
+  destruct post as [|c [|c' post]]; try discriminate.
+Qed.
+
+(* non-vacuity: the hypotheses of the partial theorem hold for ordinary anchored patterns, on both paths *)
+Lemma satisfiable_single :
+  exists p', update_quantifier w_ok (Some 2) (Some 5) = Rewritten p' /\
+  other_regions w_ok (Some 2) (Some 5) s_abc = [true; true; true; true; true; true; true] /\
+  search ascii_cat p' s_abc /\ p' <> w_ok.
+Proof.
+  eexists. split; [vm_compute; reflexivity|]. split; [vm_compute; reflexivity|].
+  split; [apply search_b_sound; vm_compute; reflexivity | discriminate].
+Qed.
+
+Definition s_plus12 : str := [43; 49; 50]%N.
+Lemma satisfiable_multi :
+  exists p', update_quantifier w_ok_multi (Some 3) (Some 6) = Rewritten p' /\
+  other_regions w_ok_multi (Some 3) (Some 6) s_plus12 = [true; true; true; true; true; true; true] /\
+  search ascii_cat p' s_plus12 /\ p' <> w_ok_multi.
+Proof.
+  eexists. split; [vm_compute; reflexivity|]. split; [vm_compute; reflexivity|].
+  split; [apply search_b_sound; vm_compute; reflexivity | discriminate].
+Qed.
+
+(* ------------------------------------------------------------------------------------ *)
+(* 7. forbid_properties                                                                   *)
+(* ------------------------------------------------------------------------------------ *)
+Lemma forbid_one names keys : readonly_le1 names = true -> forbid_valid names keys = sends_no_readonly names keys.
+Proof.
+  destruct names as [|n [|n' names]]; try discriminate. intros _.
+  unfold forbid_valid, sends_no_readonly. cbn [forallb existsb]. rewrite andb_true_r, orb_false_r. reflexivity.
+Qed.
+
+Definition ro_names : list str := [[97]; [98]]%N.
+Definition ro_keys : list str := [[99]; [97]]%N.
+Lemma forbid_two_refuted : forbid_valid ro_names ro_keys = true /\ sends_no_readonly ro_names ro_keys = false.
+Proof. split; vm_compute; reflexivity. Qed.
